@@ -8,6 +8,9 @@ LEAN = os.path.join(VERIF, 'lean')
 GO = os.path.join(VERIF, 'go')
 NCPU = os.cpu_count() or 4
 ALLOWED_AXIOMS = {'propext', 'Classical.choice', 'Quot.sound'}
+# extra build tags tried for the harness: `promhook` = ee/plugins/prometheus carries VerifSetLicenseBypass
+# (repo_hooks/prometheus_license.patch); without it kind=prom covers the licence-off half only
+OPTIONAL_TAGS = ['promhook']
 GOENV = dict(os.environ, GOFLAGS='', GOPROXY='off', GOSUMDB='off', GOTOOLCHAIN='local', GOWORK=os.path.join(GO, 'go.work'))
 
 TRUSTED_BASE = [
@@ -98,7 +101,14 @@ def build_go(race=False):
             targets.append(('harness-race', ['-tags', 'verif', '-race']))
         for name, flags in targets:
             pkg = './harness' if name.startswith('harness') else './extract'
-            rc, o, e = sh(['go', 'build'] + flags + ['-o', os.path.join(GO, 'bin', name), pkg], cwd=GO, env=GOENV, timeout=900)
+            rc = 1
+            if name.startswith('harness') and OPTIONAL_TAGS:
+                # harness files guarded by an optional tag use a hook of the repository that may not
+                # be there yet (repo_hooks/*.patch): build with them if that compiles, else without
+                f2 = [x if not x.startswith('verif') else x + ',' + ','.join(OPTIONAL_TAGS) for x in flags]
+                rc, o, e = sh(['go', 'build'] + f2 + ['-o', os.path.join(GO, 'bin', name), pkg], cwd=GO, env=GOENV, timeout=900)
+            if rc != 0:
+                rc, o, e = sh(['go', 'build'] + flags + ['-o', os.path.join(GO, 'bin', name), pkg], cwd=GO, env=GOENV, timeout=900)
             outs.append(o + e)
             if rc != 0:
                 return False, '\n'.join(outs)
